@@ -51,7 +51,13 @@ EXPLANATION = (
     "pairwise in the caller's order after both length checks (rule C36.3 adopted as C01.15.3): the blocks arrive in the order the "
     "servers answered and only zfec puts the pieces in share-number order; (16) DownloadNode._decode_blocks returns nothing but the "
     "Deferred of that decode call, and its first callback joins the pieces with b'' in the order received and hands on (a slice "
-    "of) that join.  "
+    "of) that join; (17) there is no way from the public read() to the consumer around Segmentation: every normal return of "
+    "ImmutableFileNode.read / CiphertextFileNode.read / DownloadNode.read lies behind the hand-over of the read to the next stage "
+    "(for DownloadNode.read: the start() of a Segmentation built in that call) or behind the fact 'length == 0', and whole segments "
+    "(get_segment) are requested only by Segmentation (which walks all segments of the range and trims them), by get_segsize and "
+    "by the forwarding wrapper - a 'small file' short cut that hands over segment 0 is a by-pass of exactly this kind; in (7) also: "
+    "on every path through DecryptingConsumer.__init__ the decryptor kept is the one keyed in that constructor from its own "
+    "(readkey, offset), nobody else stores it, and the residue is consumed behind every such store.  "
     "Undecided: the arithmetic identities themselves (sum of block sizes == share size), zfec, AES, hash trees; that the "
     "spans a stage fetches are the spans _desire_* requested (a mismatch stalls every download); the value-level guards "
     "(2**32 / 2**64 layout-version limits, the segnum >= num_segments BADSEGNUM boundary - SegmentFetcher re-checks it -, "
@@ -1387,8 +1393,9 @@ def run_ctr(ctx, r):
     block = len(folder.module_const("crypto.aes", "DEFAULT_IV"))
     init = idx.func(DECR + ".__init__")
     ps = first_positional_params(init)
-    if len(ps) != 3:
+    if len(ps) < 3:
         raise AnchorVanished("DecryptingConsumer.__init__ signature changed")
+    # (consumer, readkey, offset, ...): further parameters are tolerated, the decryptor may not come from them (below)
     off = ps[2]
     s = Sym(idx, init)
     cd = the_call(init, "create_decryptor")
@@ -1410,9 +1417,34 @@ def run_ctr(ctx, r):
         isinstance(big.right, ast.Constant) and big.right.value == block
     r.require(okb, init, init.loc(cd), "the block counter is %s, not %s // %d" % (nf(big), off, block))
     # store and residue
-    stores_ = [n for n in init.cfg().nodes if "self._decryptor" in node_stores(n)]
-    r.require(len(stores_) == 1 and assign_value(stores_[0], "self._decryptor") is cd, init, init.loc(cd),
-              "the positioned decryptor is not what is kept in self._decryptor")
+    # provenance of the decryptor that write() uses: on every path through __init__ it is stored, and every store keeps
+    # the create_decryptor(readkey, iv(offset)) call of this very constructor - an AES-CTR context taken from anywhere
+    # else (a parameter, a cache, an earlier read) stands wherever its previous user left it
+    icfg = init.cfg()
+    stores_ = [n for n in icfg.nodes if "self._decryptor" in node_stores(n)]
+    foreign = []
+    for n in stores_:
+        v = assign_value(n, "self._decryptor")
+        if v is not None and s.expand(n, v) is not None and isinstance(s.expand(n, v), ast.Call) \
+                and ast.dump(s.expand(n, v)) == ast.dump(s.expand(cn, cd)):
+            continue
+        foreign.append(n)
+        r.violation(init, init.loc(n.ast), "self._decryptor is set to %s, which is not the decryptor keyed in this constructor "
+                    "from its own (readkey, offset): a context that comes from elsewhere (a parameter, a cache, a previous "
+                    "read) stands wherever its last user left it - after a failed or stopped read not at this read's offset - "
+                    "and the consumer receives garbage" % (src(init, v) if v is not None else src(init, n.ast)))
+    r.require(bool(stores_), init, init.loc(cd), "the positioned decryptor is not what is kept in self._decryptor")
+    own_store = lambda n: any(n is m for m in stores_) and not any(n is m for m in foreign)
+    for (t, w) in find_path_avoiding(icfg, lambda n: n.kind == "exit", gate_node=own_store):
+        if not foreign:
+            r.violation(init, init.loc(), "DecryptingConsumer.__init__ can return without keeping a decryptor positioned at "
+                        "its offset (path: %s)" % w.brief(), w)
+    cg_ = get_callgraph(idx)
+    for (f, nd) in cg_.attr_stores("_decryptor"):
+        if attr_path(nd.value) != "self":
+            r.violation(f, f.loc(nd), "%s stores the _decryptor of another object: only DecryptingConsumer.__init__ positions "
+                        "the AES-CTR counter (from its own offset)" % short(f))
+    stores_ = [n for n in stores_ if not any(n is m for m in foreign)] or stores_
     dd = [c for c in calls_in_func(init, "decrypt_data")]
     if len(dd) != 1:
         r.violation(init, init.loc(), "the intra-block residue of the offset is not consumed in __init__ (found %d "
@@ -1432,6 +1464,24 @@ def run_ctr(ctx, r):
         r.require(ok and oks, init, init.loc(c), "the decryptor is advanced by %s, not by %s %% %d bytes" % (nf(e), off, block))
         r.require(bool(stores_) and dominated_by(init.cfg(), stores_[0], n), init, init.loc(c),
                   "the residue is consumed before the decryptor exists")
+        # ... on every path from the store to the return, unless the path established that there is no residue
+        res_nf = nf(small) if (ok and oks) else None
+
+        def no_residue(q, lab):
+            f = s.fnorm.edge_fact(q, lab)
+            return bool(f) and res_nf is not None and ((f[0] == "false" and f[1] == res_nf) or
+                                                       (f[0] == "==" and {f[1], f[2]} == {res_nf, "0"}))
+        for sn in stores_:
+            def tr(q, lab, nxt, st_, _sn=sn):
+                if lab == "exc" or (q is n and q is not _sn) or no_residue(q, lab):
+                    return None
+                return 0
+            visited, parent = explore(icfg, 0, tr, start=sn)
+            hit = [(nid, st_) for (nid, st_) in sorted(visited) if icfg.nodes[nid].kind == "exit"]
+            if hit and sn is not n:
+                w = witness(icfg, parent, hit[0])
+                r.violation(init, init.loc(sn.ast), "the constructor can return with a decryptor whose intra-block residue "
+                            "(%s %% %d bytes) was not consumed (path: %s)" % (off, block, w.brief()), w)
     ci = idx.cls(DECR)
     for m in ci.methods.values():
         if m.name != "__init__":
@@ -1454,7 +1504,8 @@ def run_ctr(ctx, r):
     rp = first_positional_params(rd)
     rs = Sym(idx, rd)
     dc = the_call(rd, "DecryptingConsumer")
-    rc = the_call(rd, "read", lambda c: attr_path(c.func.value) == "self._cnode")
+    rc = the_call(rd, "read", lambda c: isinstance(c.func, ast.Attribute) and
+                  nf(rs.expand(node_of(rd, c), c.func.value)) == "self._cnode")
     r.site(rd, dc, "same offset for counter and ciphertext")
     b1 = bind_call_args(init, dc)
     cread = idx.func("immutable.filenode:CiphertextFileNode.read")
@@ -2887,6 +2938,147 @@ def run_decoded_join(ctx, r):
             short(pr), src(pr, first) if first is not None else "None", src(pr, jc)))
 
 
+# ------------------------------------------ the read path: entry point -> Segmentation
+IFN_READ = "immutable.filenode:ImmutableFileNode.read"
+CFN_READ = "immutable.filenode:CiphertextFileNode.read"
+SEGM = "immutable.downloader.segmentation:Segmentation"
+
+
+class ReadStage:
+    """One stage of the chain ImmutableFileNode.read -> CiphertextFileNode.read -> DownloadNode.read -> Segmentation:
+    the function, its (consumer, offset, size) parameters, and the sites of its own CFG that hand the read on to the
+    next stage (`forwards`: (cfg node, call) - for DownloadNode.read the start() of a Segmentation built in this call;
+    `ctor` is then the Segmentation(..) call)."""
+
+    def __init__(self, idx, qual, what, tail=None, recv=None):
+        self.fn = idx.func(qual)
+        self.what = what
+        ps = first_positional_params(self.fn)
+        if len(ps) < 3:
+            raise AnchorVanished("%s no longer takes (consumer, offset, size)" % short(self.fn))
+        self.consumer, self.offset, self.size = ps[:3]
+        self.sym = Sym(idx, self.fn)
+        self.cfg = self.sym.cfg
+        self.forwards = []
+        self.ctor = {}
+        for n in self.cfg.nodes:
+            for c in node_calls(n):
+                if not isinstance(c.func, ast.Attribute):
+                    continue
+                if tail is not None:
+                    if c.func.attr == tail and nf(self.sym.expand(n, c.func.value)) == recv:
+                        self.forwards.append((n, c))
+                elif c.func.attr == "start":
+                    rv = self.sym.expand(n, c.func.value)
+                    if isinstance(rv, ast.Call) and call_tail(rv) == "Segmentation":
+                        # the original constructor call (rv is an expanded copy) and the node that evaluates it
+                        for m in self.cfg.nodes:
+                            for c2 in node_calls(m):
+                                if call_tail(c2) == "Segmentation" and ast.dump(self.sym.expand(m, c2)) == ast.dump(rv):
+                                    self.ctor[id(c)] = (m, c2)
+                        if id(c) in self.ctor:
+                            self.forwards.append((n, c))
+        if not self.forwards:
+            raise AnchorVanished("%s: %s not found" % (short(self.fn), what))
+
+    def is_forward(self, n):
+        return any(m is n for (m, _c) in self.forwards)
+
+    def later_code(self):
+        """(function, call) for every call in code of this stage that runs on a later turn or repeatedly out of the
+        stage's own control flow: nested defs and lambdas (Deferred callbacks, eventually())."""
+        own = {id(x) for x in func_own_nodes(self.fn)}
+        out = []
+        for x in ast.walk(self.fn.node):
+            if isinstance(x, ast.Call) and id(x) not in own:
+                out.append(x)
+        return out
+
+
+def read_stages(idx):
+    """The three forwarding stages of an immutable read (shared with C02)."""
+    return [ReadStage(idx, IFN_READ, "the call self._cnode.read(..)", tail="read", recv="self._cnode"),
+            ReadStage(idx, CFN_READ, "the call self._node.read(..)", tail="read", recv="self._node"),
+            ReadStage(idx, NODE + ".read", "the start() of a Segmentation built for this read")]
+
+
+def zero_size_edge(st, n, lab, want_defs):
+    """The edge (n, lab) establishes `<size> == 0` for a local/parameter whose reaching definitions at n are
+    want_defs(name) (so that it is the length of this read, not some other number)."""
+    f = st.sym.fnorm.edge_fact(n, lab)
+    if not f or f[0] != "==" or "0" not in (f[1], f[2]):
+        return False
+    t = n.ast
+    if not (isinstance(t, ast.Compare) and len(t.ops) == 1):
+        return False
+    sides = [t.left, t.comparators[0]]
+    nm = [s for s in sides if isinstance(s, ast.Name)]
+    k = [s for s in sides if isinstance(s, ast.Constant) and s.value == 0 and not isinstance(s.value, bool)]
+    if len(nm) != 1 or len(k) != 1:
+        return False
+    return st.sym.rd.get(n.id, {}).get(nm[0].id) == want_defs(nm[0].id)
+
+
+def run_read_path(ctx, r):
+    """Every normal return of the three read() stages lies behind the hand-over to the next stage (or behind the fact
+    that the length of the read is zero): Segmentation is the only code that walks all segments of [offset, offset+size)
+    and cuts them to the range, so a return that by-passes it delivers something else than the requested bytes."""
+    idx = ctx.idx
+    stages = read_stages(idx)
+    for st in stages:
+        fn = st.fn
+        r.site(fn, st.forwards[0][1], "every return behind " + st.what)
+        if st.ctor:
+            # DownloadNode.read: the zero length is the length given to the Segmentation (the clipped one)
+            size_defs = set()
+            for (n, c) in st.forwards:
+                sinit = idx.func(SEGM + ".__init__")
+                (cn, cc) = st.ctor[id(c)]
+                a = bind_call_args(sinit, cc).get(first_positional_params(sinit)[2])
+                if isinstance(a, ast.Name):
+                    size_defs.add((a.id, st.sym.rd.get(cn.id, {}).get(a.id)))
+            want = lambda name, _s=size_defs: next((d for (nm, d) in _s if nm == name), None)
+        else:
+            want = lambda name, _st=st: frozenset([C.PARAM_DEF]) if name == _st.size else None
+        gate_e = lambda n, lab, _st=st, _w=want: _w is not None and zero_size_edge(_st, n, lab, _w)
+        bad = find_path_avoiding(st.cfg, lambda n: n.kind == "exit", gate_node=st.is_forward, gate_edge=gate_e)
+        r.count(len(st.cfg.nodes))
+        for (t, w) in bad:
+            last = [n for (n, _l) in w.path if n.kind == "stmt" and isinstance(n.ast, ast.Return)]
+            at = last[-1].ast if last else None
+            r.violation(fn, fn.loc(at) if at is not None else fn.loc(),
+                        "%s can return%s without passing through %s (and without having established that the length of the "
+                        "read is 0): what the consumer then receives is not cut out of the file's segments by Segmentation, "
+                        "the only code that fetches every segment of [offset, offset+size) and trims it to the range "
+                        "(path: %s)" % (short(fn), (" " + src(fn, at.value)) if at is not None and at.value is not None else "",
+                                        st.what, w.brief()), w)
+    # segment data is requested only by Segmentation (which trims it), by get_segsize (which throws it away) and by the
+    # forwarding wrapper of the ciphertext node
+    allowed = [SEGM + "._fetch_next", NODE + ".get_segsize", "immutable.filenode:CiphertextFileNode.get_segment"]
+    bad, badrefs, total = callers_outside(idx, "get_segment", allowed)
+    r.site("callers of get_segment: %d" % total)
+    if total < 1:
+        raise AnchorVanished("no caller of get_segment found")
+    for cs in bad:
+        # a caller that throws the segment away (a prefetch) delivers nothing; one that writes somewhere, or hands the
+        # result to code that is not in sight (a callback that is not a nested def / lambda), may deliver the segment
+        top = cs.fn
+        while top.parent is not None:
+            top = top.parent
+        writes = [x for x in ast.walk(top.node) if isinstance(x, ast.Call) and call_tail(x) == "write"]
+        hidden = [x for x in ast.walk(top.node) if isinstance(x, ast.Call) and call_tail(x) in (
+            "addCallback", "addCallbacks", "addBoth") and x.args and not (
+                isinstance(x.args[0], ast.Lambda) or (isinstance(x.args[0], ast.Name) and x.args[0].id in top.nested))]
+        if not writes and not hidden:
+            continue
+        r.violation(cs.fn, cs.loc, "%s asks for a whole segment (get_segment) outside Segmentation and %s: a segment is not the "
+                    "requested range - only Segmentation._got_segment cuts it to [offset, offset+size) and goes on to the "
+                    "next segment" % (short(cs.fn), ("writes (%s)" % src(top, writes[0])[:60]) if writes else
+                                      "hands the result to a callback that is not in sight"))
+    for (f, nd) in badrefs:
+        r.violation(f, f.loc(nd), "%s takes get_segment as a value" % short(f))
+
+
 # ====================================================================== driver
 def run(ctx: Context):
     idx = ctx.idx
@@ -2971,3 +3163,10 @@ def run(ctx: Context):
                   "share numbers), and the first callback on it joins the decoded pieces in the order the codec returned "
                   "them and hands on (a slice of) that join", expected=2) as r:
         run_decoded_join(ctx, r)
+
+    with ctx.rule("C01.17", "R1/R4", "every path from the public read() to the consumer runs through Segmentation: every normal "
+                  "return of ImmutableFileNode.read, CiphertextFileNode.read and DownloadNode.read lies behind the hand-over "
+                  "to the next stage (self._cnode.read / self._node.read / the start() of a Segmentation built in that call) or "
+                  "behind the fact that the length of the read is 0; whole segments (get_segment) are requested only by "
+                  "Segmentation, get_segsize and the forwarding wrapper", expected=4) as r:
+        run_read_path(ctx, r)
